@@ -66,9 +66,32 @@ def run_c10(ctx: Ctx, M: AnnotateModel):
     it = M.LOOP.iter
     srt = False
     if isinstance(it, ast.Name):
-        defs = [s for s in pre if isinstance(s, ast.Assign) and it.id in assigned_names(s)]
-        srt = len(defs) >= 1 and all(isinstance(d.value, ast.Call) and dotted(d.value.func) == "sorted" and len(d.value.args) == 1
-                                     and not d.value.keywords and norm(d.value.args[0]) == params[1] for d in defs)
+        defs = [s for s in stmts_local(pre) if isinstance(s, ast.Assign) and it.id in assigned_names(s)]
+
+        def _span_key(k) -> bool:
+            """key=<function returning the annotation's span (its first component)>: span order with ties in input order"""
+            f_ = repo_.func(f"annotate.{k.id}") if isinstance(k, ast.Name) else k if isinstance(k, ast.Lambda) else None
+            if f_ is None:
+                return False
+            a0 = f_.args.args[0].arg if f_.args.args else None
+            if isinstance(f_, ast.Lambda):
+                return norm(f_.body) == f"{a0}[0]"
+            from ..core import effective_body as _eb
+            b_ = _eb(f_)
+            if len(b_) == 1 and isinstance(b_[0], ast.Return):
+                return norm(b_[0].value) == f"{a0}[0]"
+            # `start, end = annotation[0]; return start, end`
+            return len(b_) == 2 and isinstance(b_[0], ast.Assign) and norm(b_[0].value) == f"{a0}[0]" and isinstance(b_[1], ast.Return) \
+                and norm(b_[1].value).strip("()") == norm(b_[0].targets[0]).strip("()")
+
+        def _sorted_def(d) -> bool:
+            v = d.value
+            if not (isinstance(v, ast.Call) and dotted(v.func) == "sorted" and len(v.args) == 1 and norm(v.args[0]) in (params[1], it.id)):
+                # a plain copy of the input before sorting it (`annotations = list(annotations)`)
+                return isinstance(v, ast.Call) and dotted(v.func) in ("list", "tuple") and len(v.args) == 1 and norm(v.args[0]) == params[1] and d is not defs[-1]
+            return not v.keywords or (len(v.keywords) == 1 and v.keywords[0].arg == "key" and _span_key(v.keywords[0].value))
+        repo_ = ctx.repo
+        srt = len(defs) >= 1 and all(_sorted_def(d) for d in defs) and any(isinstance(d.value, ast.Call) and dotted(d.value.func) == "sorted" for d in defs)
     elif isinstance(it, ast.Call) and dotted(it.func) == "sorted" and not it.keywords:
         srt = norm(it.args[0]) == params[1]
     ctx.ob("C10-R2", f"{q}/sorted-iteration", srt, f"annotations are processed in span order: the loop iterates sorted(annotations) with the default key (`{norm(it)}`)",
